@@ -1405,6 +1405,13 @@ def frame_method(it, f, name, args, kwargs, node, fr):
             return series_of(f, pyval(args[0]))
         except KeyError:
             return argn(args, kwargs, 1, "default", K(None))
+    if name == "assign" and not args:
+        # df.assign(col=value, ...): a new table with these columns set, exactly as `c = df.copy(); c[col] = value`
+        c = f.clone()
+        c.fresh = True
+        for k_, v_ in list(kwargs.items()):
+            _lib.setitem(it, c, K(k_), v_, node, fr)
+        return c
     raise Unsupported(f"DataFrame.{name} is not modelled", node)
 
 
